@@ -33,13 +33,42 @@ def outcome(op, da):
     return ("ok", res)
 
 
+ATTRS_IN_RESULT = [False]  # set per probe: only where the property itself speaks of attributes (C09 calibration window, C19 agg_*)
+
+
+def _attr_tag(da):
+    """Attributes are part of a result where the property says so (agg_start / agg_stop / agg_n, calibration window)."""
+    return "" if not (ATTRS_IN_RESULT[0] and da.attrs) else " attrs=" + repr(sorted((str(k), str(v)) for k, v in da.attrs.items()))
+
+
+def ambient_probe(R, pid, name, da, op, case=None):
+    """Process-wide settings an application may have changed must not change what an operation returns."""
+    import xarray as xr
+
+    ATTRS_IN_RESULT[0] = pid in ("C09", "C19")
+    ref = outcome(op, fresh(da))
+    for label, ctx in (("xarray.set_options(keep_attrs=False)", lambda: xr.set_options(keep_attrs=False)),
+                       ("xarray.set_options(keep_attrs=True)", lambda: xr.set_options(keep_attrs=True)),
+                       ("numpy.errstate(all='ignore')", lambda: np.errstate(all="ignore"))):
+        with ctx():
+            got = outcome(op, fresh(da))
+        R.count("ambient_probes")
+        ok_ = same(got, ref)
+        if not ok_:
+            ATTRS_IN_RESULT[0] = False
+            R.violation(f"{pid}:ambient-setting", f"{name}: under {label} the result is {describe(got)}, with default settings {describe(ref)}", dict(case or {}, op=name, setting=label))
+            return False
+    ATTRS_IN_RESULT[0] = False
+    return True
+
+
 def _flat(res):
     import xarray as xr
 
     if isinstance(res, xr.Dataset):
-        return [(k, res[k].dims, np.asarray(res[k].values)) for k in sorted(res.data_vars)]
+        return [(k + _attr_tag(res[k]), res[k].dims, np.asarray(res[k].values)) for k in sorted(res.data_vars)]
     if isinstance(res, xr.DataArray):
-        return [("", res.dims, np.asarray(res.values))]
+        return [(_attr_tag(res), res.dims, np.asarray(res.values))]
     if isinstance(res, list):
         out = []
         for i, r in enumerate(res):
@@ -140,7 +169,7 @@ def relabel_time(rng):
     return mut
 
 
-PIDS = ("C02", "C03", "C04", "C05", "C07", "C08", "C09", "C10", "C11", "C15", "C16", "C17", "C18", "C19", "C20")
+PIDS = ("C02", "C03", "C04", "C05", "C06", "C07", "C08", "C09", "C10", "C11", "C15", "C16", "C17", "C18", "C19", "C20")
 
 
 # ---- per-property operation tables (small cubes; the point is the object's life cycle, not the numerics) -------------
@@ -167,6 +196,17 @@ def _ops(pid, rng, nt):
     srange = np.arange(-1.0, 2.0, 0.5)
     groups = (np.arange(nt) % 3).astype("int16")
     if pid in ("C02", "C03", "C04", "C05", "C06"):
+        def lcr(v):
+            return lambda d: d.hdc.whit.whitsvc(nodata=ND, lc=xr.DataArray(np.full((d.sizes["y"], d.sizes["x"]), v), dims=["y", "x"]), p=0.8)
+        if pid == "C04":
+            return {"whitsvc_lc_high": lcr(0.9), "whitsvc_lc_low": lcr(0.1), "whitsvc": lambda d: d.hdc.whit.whitsvc(nodata=ND, srange=srange),
+                    "whitsvc_p": lambda d: d.hdc.whit.whitsvc(nodata=ND, srange=srange + 0.25, p=0.8)}
+        if pid == "C03":
+            return {"whits": lambda d: d.hdc.whit.whits(nodata=ND, s=10.0), "whits_s1000": lambda d: d.hdc.whit.whits(nodata=ND, s=1000.0),
+                    "whits_p": lambda d: d.hdc.whit.whits(nodata=ND, s=10.0, p=0.8), "whits_p2": lambda d: d.hdc.whit.whits(nodata=ND, s=100.0, p=0.2)}
+        if pid == "C05":
+            return {"whitswcv": lambda d: d.hdc.whit.whitswcv(nodata=ND, srange=srange, robust=False), "whitswcv_other_grid": lambda d: d.hdc.whit.whitswcv(nodata=ND, srange=srange + 0.25, robust=False),
+                    "whitswcv_robust_p": lambda d: d.hdc.whit.whitswcv(nodata=ND, srange=srange, p=0.8), "whitswcv_default": lambda d: d.hdc.whit.whitswcv(nodata=ND)}
         return {
             "whits": lambda d: d.hdc.whit.whits(nodata=ND, s=10.0),
             "whits_p": lambda d: d.hdc.whit.whits(nodata=ND, s=10.0, p=0.8),
@@ -213,6 +253,12 @@ def shard(spec, R, pid):
     rng = np.random.default_rng([spec["seed"], 77, int(pid[1:]), spec.get("sub", 0)])
     if pid == "C11":
         return shard_c11(spec, R, rng)
+    for k in range(spec.get("concurrent", 2)):
+        if R.out_of_time():
+            break
+        R.evaluation()
+        R.case(True, "concurrent", pid, k, spec.get("sub", 0))
+        concurrent_probe(R, pid, rng, nt=int(rng.choice([24, 36])))
     for it in range(spec["cases"]):
         if R.out_of_time():
             R.count("stopped_on_budget")
@@ -242,6 +288,8 @@ def shard(spec, R, pid):
             muts.insert(0, ("NaN written into cells in place", flag_cells(rng, np.nan, share=0.15)))
         R.evaluation()
         R.case(True, "reuse", pid, name, dtype, order, it)
+        if it % 4 == 0:
+            ambient_probe(R, pid, f"{name} ({dtype}, dims {order})", da, ops[name], case={"dims": list(order), "dtype": dtype})
         first = list(ops)[H.pick(it, 5, len(ops))]
         R.count("reuse_first_use_by_another_operation" if first != name else "reuse_first_use_by_the_same_operation")
         probe(R, pid, f"{name} after {first} ({dtype}, dims {order})", da, ops[name], muts, first_op=ops[first],
@@ -276,3 +324,52 @@ def shard_c11(spec, R, rng):
         R.evaluation()
         R.case(True, "reuse", "C11", name, it)
         probe(R, "C11", f".dekad.{name} after .dekad.{first}", t, op, [("the time coordinate shifted in place", shift)], first_op=fop, case={"times": [str(v) for v in times]})
+
+
+# ---- concurrent independent uses ------------------------------------------------------------------------------------
+def concurrent_probe(R, pid, rng, nt, rounds=3, nthreads=4):
+    """Several threads use the SAME operation(s) of one property on DIFFERENT objects of the same shape and dtype at the
+    same time (the kernels release the GIL).  Anything module-level that one call prepares and another overwrites - a
+    scratch buffer kept per shape, a work area, a memo - shows as a result that differs from the same call made alone."""
+    import threading
+
+    ops = _ops(pid, rng, nt)
+    names = list(ops)
+    binary = pid == "C18"
+    dtype = "uint8" if binary else ("float64" if pid in ("C02", "C03", "C05", "C06") and rng.random() < 0.5 else "int16")
+    order = [("time", "y", "x"), ("y", "x", "time")][int(rng.integers(0, 2))]
+    cubes, chosen = [], []
+    k0 = int(rng.integers(0, len(names)))
+    pair = (names[k0], names[(k0 + 1) % len(names)])  # two different parameterisations / features running side by side
+    for i in range(nthreads):
+        d = _cube(rng, nt, dtype=dtype, ny=12, nx=16, order=order, with_attr=True, binary=binary)
+        if dtype == "float64":  # gaps marked by NaN (C02: a NaN cell is a missing cell for the fixed-lambda and GCV smoothers)
+            v = d.values
+            v[v == -9999] = np.nan if i % 2 else -9999
+        cubes.append(d)
+        chosen.append(pair[i % 2])
+    ref = [outcome(ops[n], fresh(c)) for n, c in zip(chosen, cubes)]
+    for rnd in range(rounds):
+        got = [None] * nthreads
+        barrier = threading.Barrier(nthreads)
+
+        def work(i):
+            d = fresh(cubes[i])
+            barrier.wait()
+            got[i] = outcome(ops[chosen[i]], d)
+
+        th = [threading.Thread(target=work, args=(i,)) for i in range(nthreads)]
+        for t in th:
+            t.start()
+        for t in th:
+            t.join()
+        R.count("concurrent_rounds")
+        R.count("concurrent_calls", nthreads)
+        for i in range(nthreads):
+            if ref[i][0] == "ok":
+                R.count("concurrent_calls_with_a_result")
+            if not same(got[i], ref[i]):
+                R.violation(f"{pid}:concurrent-calls", f"{chosen[i]} ({dtype}, dims {order}) called from {nthreads} threads at once on different cubes of the same shape: thread {i} got {describe(got[i])}, alone {describe(ref[i])}",
+                            {"op": chosen[i], "dtype": dtype, "dims": list(order), "threads": nthreads, "cube": np.array(cubes[i].values, copy=True)})
+                return False
+    return True
